@@ -13,6 +13,7 @@ CONSTANTS
   MaxSpur = 0
   Endings = {"eof", "ctxdrop", "srvdisc", "handles"}
   SeiSet = {"never"}
+  RecordSched = FALSE
   Dev = {}
 VIEW view
 CONSTRAINT Proviso
